@@ -221,10 +221,167 @@ def main(repo, outdir):
     return 0
 
 
+# ------------------------------------------------------------------ write sets (C18)
+WRITE_FILES = ["skglm/solvers/anderson_cd.py", "skglm/solvers/prox_newton.py", "skglm/solvers/group_bcd.py",
+               "skglm/solvers/group_prox_newton.py", "skglm/solvers/multitask_bcd.py", "skglm/solvers/gram_cd.py", "skglm/solvers/fista.py",
+               "skglm/solvers/lbfgs.py", "skglm/solvers/common.py", "skglm/solvers/base.py", "skglm/experimental/pdcd_ws.py",
+               "skglm/datafits/single_task.py", "skglm/datafits/group.py", "skglm/datafits/multi_task.py", "skglm/penalties/separable.py",
+               "skglm/penalties/block_separable.py", "skglm/penalties/non_separable.py", "skglm/utils/prox_funcs.py", "skglm/utils/sparse_ops.py",
+               "skglm/utils/anderson.py", "skglm/estimators.py", "skglm/experimental/sqrt_lasso.py", "skglm/experimental/reweighted.py",
+               "skglm/experimental/quantile_regression.py", "skglm/utils/data.py", "skglm/utils/jit_compilation.py"]
+
+
+def _root_name(node):
+    while isinstance(node, (ast.Subscript, ast.Attribute)):
+        node = node.value
+    return node.id if isinstance(node, ast.Name) else None
+
+
+def function_writes(repo):
+    """qualified function -> (params, directly written params, calls [(callee name, [arg root names])])"""
+    funcs = {}
+    for rel in WRITE_FILES:
+        tree = parse(repo, rel)
+        defs = []
+        for node in tree.body:
+            if isinstance(node, ast.FunctionDef):
+                defs.append((node.name, node))
+            elif isinstance(node, ast.ClassDef):
+                for m in node.body:
+                    if isinstance(m, ast.FunctionDef):
+                        defs.append((f"{node.name}.{m.name}", m))
+        for qname, fn in defs:
+            params = [a.arg for a in fn.args.args + fn.args.kwonlyargs]
+            PASS = {"check_array", "asarray", "asfortranarray", "ascontiguousarray", "atleast_2d", "atleast_1d", "ravel", "reshape", "view"}
+
+            def alias_roots(e):
+                """params the value of e may alias (views and pass-through conversions included)"""
+                if isinstance(e, ast.Name):
+                    return set(alias.get(e.id, set())) | ({e.id} if e.id in params else set())
+                if isinstance(e, ast.IfExp):
+                    return alias_roots(e.body) | alias_roots(e.orelse)
+                if isinstance(e, ast.Subscript):
+                    return alias_roots(e.value)
+                if isinstance(e, ast.Attribute) and e.attr in ("T", "data", "indices", "indptr"):
+                    return alias_roots(e.value)
+                if isinstance(e, ast.Call):
+                    fname = e.func.id if isinstance(e.func, ast.Name) else (e.func.attr if isinstance(e.func, ast.Attribute) else "")
+                    if fname in PASS:
+                        out = set()
+                        for a in e.args[:1]:
+                            out |= alias_roots(a)
+                        if isinstance(e.func, ast.Attribute):
+                            out |= alias_roots(e.func.value) if fname in ("ravel", "reshape", "view") else set()
+                        return out
+                return set()
+            alias = {}
+            rebound = set()
+            direct = set()
+            calls = []
+            body_nodes = []
+            for st in ast.walk(fn):
+                body_nodes.append(st)
+            # two passes so that aliases defined later in loops are seen
+            for _ in range(2):
+                for n in body_nodes:
+                    if isinstance(n, ast.Assign) and len(n.targets) == 1:
+                        tg, vals = n.targets[0], n.value
+                        pairs = list(zip(tg.elts, vals.elts)) if isinstance(tg, ast.Tuple) and isinstance(vals, ast.Tuple) and len(tg.elts) == len(vals.elts) else [(tg, vals)]
+                        for t, v in pairs:
+                            if isinstance(t, ast.Name):
+                                r = alias_roots(v) - {t.id}
+                                if r:
+                                    alias[t.id] = alias.get(t.id, set()) | r
+
+            def roots_of_target(t):
+                r = _root_name(t)
+                if r is None:
+                    return set()
+                out = set(alias.get(r, set()))
+                if r in params and r not in alias:
+                    out.add(r)
+                elif r in params:
+                    out.add(r)
+                return out
+            for n in body_nodes:
+                if isinstance(n, ast.Assign):
+                    for t in n.targets:
+                        for tt in (t.elts if isinstance(t, ast.Tuple) else [t]):
+                            if isinstance(tt, ast.Name):
+                                rebound.add(tt.id)
+                            elif isinstance(tt, ast.Subscript):
+                                direct |= roots_of_target(tt)
+                            elif isinstance(tt, ast.Attribute):
+                                r = _root_name(tt)
+                                if r in params:
+                                    direct.add(f"{r}.{tt.attr}")
+                elif isinstance(n, ast.AugAssign):
+                    if isinstance(n.target, ast.Name):
+                        r = n.target.id
+                        if r in alias:
+                            direct |= alias[r]
+                        elif r in params and r not in rebound:
+                            direct.add(r)
+                    elif isinstance(n.target, ast.Subscript):
+                        direct |= roots_of_target(n.target)
+                    elif isinstance(n.target, ast.Attribute):
+                        r = _root_name(n.target)
+                        if r in params:
+                            direct.add(f"{r}.{n.target.attr}")
+                elif isinstance(n, ast.Call):
+                    cname = n.func.id if isinstance(n.func, ast.Name) else (n.func.attr if isinstance(n.func, ast.Attribute) else None)
+                    if cname:
+                        calls.append((cname, [sorted(alias_roots(a)) if not isinstance(a, ast.Starred) else [] for a in n.args]))
+            funcs[f"{rel}:{qname}"] = dict(params=params, direct=sorted(direct), calls=calls, rebound=sorted(rebound), src=rel)
+    # close under calls (by callee simple name; methods resolve to the union over classes)
+    byname = {}
+    for q, f in funcs.items():
+        byname.setdefault(q.split(":")[1].split(".")[-1], []).append(q)
+    writes = {q: set(f["direct"]) for q, f in funcs.items()}
+    changed = True
+    while changed:
+        changed = False
+        for q, f in funcs.items():
+            for cname, args in f["calls"]:
+                for callee in byname.get(cname, []):
+                    cp = funcs[callee]["params"]
+                    cp2 = cp[1:] if cp and cp[0] == "self" else cp
+                    for pos, roots in enumerate(args):
+                        if pos < len(cp2) and cp2[pos] in writes[callee]:
+                            for a in roots:
+                                if a in f["params"] and a not in writes[q]:
+                                    writes[q].add(a)
+                                    changed = True
+    return {q: dict(params=f["params"], writes=sorted(writes[q])) for q, f in funcs.items()}
+
+
+def main_writes(repo, outdir):
+    fw = function_writes(repo)
+    json.dump(fw, open(os.path.join(outdir, "writes.json"), "w"), indent=1)
+    lines = ["(* GENERATED by tools/extract.py (write sets) from /repo's AST -- do not edit. *)",
+             "From Coq Require Import String List Bool.", "Import ListNotations.", "Open Scope string_scope.", "",
+             "Record fn := { f_name : string; f_params : list string; f_writes : list string }.",
+             "Definition functions : list fn := ["]
+    items = []
+    for q, f in sorted(fw.items()):
+        items.append("  {| f_name := %s; f_params := %s; f_writes := %s |}" % (coq_str(q), coq_list([coq_str(p) for p in f["params"]]), coq_list([coq_str(w) for w in f["writes"]])))
+    lines.append(";\n".join(items))
+    lines.append("].")
+    text = "\n".join(lines) + "\n"
+    p = os.path.join(outdir, "Writes.v")
+    if not os.path.exists(p) or open(p).read() != text:
+        open(p, "w").write(text)
+    return 0
+
+
 if __name__ == "__main__":
     import argparse
     ap = argparse.ArgumentParser()
     ap.add_argument("--repo", default="/repo")
     ap.add_argument("--out", default=os.path.join(os.path.dirname(os.path.abspath(__file__)), "..", "coq", "Gen"))
     a = ap.parse_args()
-    sys.exit(main(a.repo, a.out))
+    rc = main(a.repo, a.out)
+    main_writes(a.repo, a.out)
+    sys.exit(rc)
+
+
